@@ -28,6 +28,8 @@ def cell_switches(host, cfg, switches):
     hv = tuple(int(x) for x in host.split("."))
     if "fstring-field-string-literal" in switches and hv >= (3, 12) and cfg[0] == "ast.unparse":
         out.add("fstring-field-string-literal")
+    if "oneliner-fstring-field-escape" in switches and hv >= (3, 12) and cfg[0] == "oneliner":
+        out.add("field-literal-needs-escape")     # expr_unparse of a 3.12+ host writes the escape into the field
     if "ast-unparse-host-syntax" in switches and cfg[0] == "ast.unparse":
         out.add("walrus-index-or-set")            # ast.unparse of 3.10+ drops the parentheses
         if hv >= (3, 11):
@@ -68,6 +70,21 @@ def has_walrus_index_or_set(src):
             return True
         if isinstance(n, ast.SetComp) and isinstance(n.elt, ast.NamedExpr):
             return True
+    return False
+
+
+def has_field_literal_needing_escape(src):
+    import ast
+    for n in ast.walk(ast.parse(src)):
+        if isinstance(n, ast.FormattedValue):
+            for m in ast.walk(n.value):
+                if isinstance(m, ast.Constant) and isinstance(m.value, str) and any(
+                        c in "\\'\"" or not c.isprintable() for c in m.value):
+                    return True
+                if isinstance(m, ast.Constant) and isinstance(m.value, bytes):
+                    return True
+                if isinstance(m, ast.JoinedStr):
+                    return True      # nested f-string: the quote alternation runs out at depth 2
     return False
 
 
@@ -120,14 +137,15 @@ def check_program(part, pool_, source, tags, switches, label):
                     part["exclusions"]["fstring-field-string-literal"] = part["exclusions"].get("fstring-field-string-literal", 0) + 1
                     continue
             skip = None
-            for name, pred in (("walrus-index-or-set", has_walrus_index_or_set), ("star-in-index", has_star_index)):
+            for name, pred in (("walrus-index-or-set", has_walrus_index_or_set), ("star-in-index", has_star_index),
+                               ("field-literal-needs-escape", has_field_literal_needing_escape)):
                 if name in sw:
                     if name not in preds:
                         preds[name] = pred(source)
                     if preds[name]:
                         skip = name
             if skip:
-                part["exclusions"]["ast-unparse-host-syntax:" + skip] = part["exclusions"].get("ast-unparse-host-syntax:" + skip, 0) + 1
+                part["exclusions"]["host-syntax:" + skip] = part["exclusions"].get("host-syntax:" + skip, 0) + 1
                 continue
             if "fstring-literal-needs-escape" in sw:
                 if esc_lit is None:
@@ -140,9 +158,12 @@ def check_program(part, pool_, source, tags, switches, label):
                 raise env.HarnessError("host worker %s: %s" % (host, c.get("err")))
             part["extra"]["conversions"] = part["extra"].get("conversions", 0) + 1
             if not c.get("ok"):
-                return {"payload": {"kind": "xrt", "src": source, "host": host, "cfg": list(cfg), "runtime": None},
-                        "diffs": ["conversion on host %s raised %s" % (host, c.get("err"))],
-                        "what": "%s: conversion fails on host %s (%s)" % (label, host, env.cfg_name(cfg))}
+                # no text was produced: C15 is about the text the converter produces. Whether a
+                # supported program may be refused on a host is decided by the host dimension
+                # of C01/C05/C06/C07/C13 (same oracle, other interpreter).
+                part["classes"]["rejected-on-host:" + host] += 1
+                part["extra"]["rejections"] = part["extra"].get("rejections", 0) + 1
+                continue
             texts.setdefault(c["text"], []).append((host, cfg))
     for text, origins in texts.items():
         for rt in runtimes:
@@ -186,7 +207,11 @@ def _shard(item):
                     part["samples"].append(p.source)
                 return check_program(part, pl, p.source, p.tags, switches, "generated program")
 
-            calls, v = hyp.search(prog.program_strategy(switches, py38=True, max_stmts=16), body, seed, n,
+            # F31's switches are honoured per (host, unparser) cell by predicates on the source,
+            # not by the generator: the other cells must see those shapes
+            gen_sw = [x for x in switches if x not in ("fstring-field-string-literal", "ast-unparse-host-syntax",
+                                                       "oneliner-fstring-field-escape")]
+            calls, v = hyp.search(prog.program_strategy(gen_sw, py38=True, max_stmts=16), body, seed, n,
                                   key=lambda p: p.source, shrink_calls=25, shrink_seconds=60)
             if v:
                 part["violations"].append(v)
